@@ -1037,12 +1037,10 @@ theorem finish_not_err (s : State) (macFn : Tsig → List UInt8 → List UInt8) 
 
 /-- with TSIG configured the additional count already includes the TSIG record -/
 theorem arcount_of_tsig (s : State) (hI : I s) (ht : s.tsig.isSome) : 1 ≤ s.arcount ∧ s.arcount ≤ 65535 := by
-  have := hI.inv.ar_ge
+  have h1 := hI.inv.ar_ge
   have h2 := hI.inv.ar
-  rw [ht] at this
-  constructor
-  · split at this <;> omega
-  · exact h2
+  simp only [ht, if_true] at h1
+  exact ⟨by omega, h2⟩
 
 /-- the component lists the request handler relies on (class IN = 1) -/
 theorem componentTypes_of_ns : componentTypes 1 2 = some [.compressibleName] := by decide
